@@ -337,6 +337,30 @@ def c09_l1_monitor(ctx, res, case, impl_line, model_line, spec):
                                               what=f'{t[1]} retained version(s) refer to deleted or unreadable objects after history deletion'))
             return
 
+def _cells(tokens):
+    """(tag, payload) of every SQLite value in a token list (tags N I R T B occur only as value tags)"""
+    out, i = [], 0
+    while i < len(tokens):
+        if tokens[i] == 'N':
+            out.append(('N',)); i += 1
+        elif tokens[i] in ('I', 'R', 'T', 'B') and i + 1 < len(tokens):
+            out.append((tokens[i], tokens[i + 1])); i += 2
+        else:
+            i += 1
+    return out
+
+def c08_merge_monitor(ctx, res, fn, case, impl, model, spec):
+    """merging rows only SELECTS stored cells: every cell value in the implementation's merged row
+    is, bit for bit and with its storage class, a cell value of one of the two rows merged"""
+    if fn not in ('merge_rows', 'merge_values') or not impl or impl[0] == 'P':
+        return
+    have = set(_cells(case.split()[2:]))
+    for cell in _cells(impl):
+        if cell not in have:
+            res.property_failures.append(dict(suite=res.name, case=case, impl=' '.join(impl)[:600],
+                                              what=f'the merged row holds the value {" ".join(cell)} that neither input row holds (a stored value was altered by the merge)'))
+            return
+
 def l0_determined(what, funcs=None, domain_only=False):
     """L0: the function's result is fixed by the property (documented rule = the proved model)"""
     def mon(ctx, res, fn, case, impl, model, spec):
@@ -359,7 +383,9 @@ register('C17', [l0_suite(['lww'], monitor=l0_determined('the merged value is no
                  l1_suite(['plain', 'cb'], monitor=determined_result_monitor('kv package: a Get / cursor / Diff / TraceHistory result differs from what the rule fixes for this history'))],
          ['kv default configuration: int keys, string values; gob/JSON codecs are third-party'])
 register('C01', [l0_suite(['merge_rows', 'merge_values', 'merge_laws'], monitor=c01_laws_monitor),
-                 l1_suite(['rows'], monitor=c01_two_orders_monitor), l1_suite(['rows'], name='l1f', quick=300)],
+                 l1_suite(['rows'], monitor=c01_two_orders_monitor),
+                 l1_suite(['rows'], name='l1f', quick=300,
+                          monitor=determined_result_monitor('a reader that merges the committed versions (after a storage fault has cleared) sees other rows than the merge of those versions'))],
          ['all writers of a prefix declare the same column list'])
 
 # ---------------------------------------------------------------- L2 (SQL)
@@ -726,7 +752,8 @@ def c02_monitor(ctx, res, case, impl_line, model_line, spec):
 register('C06', [l2_suite('single')],
          ['SQLite re-checks every constraint on rows returned by the cursor (no constraint is marked omit)',
           'write times set explicitly and non-decreasing', 'TEXT values are valid UTF-8'])
-register('C08', [l2_suite('single')], ['TEXT values are valid UTF-8 (others must be refused)'])
+register('C08', [l2_suite('single'), l0_suite(['merge_rows', 'merge_values'], monitor=c08_merge_monitor)],
+         ['TEXT values are valid UTF-8 (others must be refused)'])
 
 register('C02', [l0_suite(['merge_rows', 'merge_values'], monitor=l0_determined('merging two entries written at different times does not give the result the documented rule fixes', funcs=['merge_values'], domain_only=True)),
                  l2_suite('multi', native=False, extra_monitor=c02_monitor)],
